@@ -667,10 +667,19 @@ def gen_world(rng, wid):
         if rng.random() < 0.35 and unit_lines:
             name = rng.choice(sorted(unit_lines))
             c = name[1]
-            refs = [u for u in units_of[c] if u != name and not _depends(unit_lines, u, name)]
+            # only units created before `name`: every definition (original or redefined) points to an
+            # earlier unit, so no combination of active redefinitions can close a cycle
+            refs = units_of[c][:units_of[c].index(name)]
             redefs.append({"name": name, "rhs": f"{rng.choice(['5', '9/4', '0.2', '40'])} * {rng.choice(refs)}"})
         raws.append({"name": f"rc{ci}", "aliases": rng.choice([[], [f"r{ci}"], [f"r{ci}", f"rr{ci}"]]),
                      "defaults": dfl, "rels": rels, "redefs": redefs})
+    # a diamond A->B->D, A->C->D spread over the contexts: two shortest chains with different values
+    if len(nodes) >= 4 and rng.random() < 0.7:
+        a, b, c, d = rng.sample(range(len(nodes)), 4)
+        for (x, y) in [(a, b), (a, c), (b, d), (c, d)]:
+            tgt = rng.choice(raws)
+            eq, us = gen_equation(rng, nodes[x], nodes[y], [p for p, _ in tgt["defaults"]])
+            tgt["rels"].append({"bidir": False, "src": nodes[x][0], "dst": nodes[y][0], "eq": eq})
     # where each context lives: in the definition file, registered object, or unregistered object
     place = [rng.choice(["file", "file", "reg-obj", "obj"]) for _ in raws]
     text_lines = list(lines)
@@ -686,18 +695,6 @@ def gen_world(rng, wid):
     w.letters, w.units_of, w.params = letters, units_of, params
     w.nodes = nodes
     return w
-
-
-def _depends(unit_lines, u, name):
-    """does unit u's definition chain reach `name`? (a redefinition must not create a cycle)"""
-    seen = set()
-    while u in unit_lines and u not in seen:
-        seen.add(u)
-        ref = unit_lines[u].split("=")[1].split("*")[-1].strip()
-        if ref == name:
-            return True
-        u = ref
-    return u == name
 
 
 def rnd_ref(rng, w, i):
@@ -747,7 +744,11 @@ def run(ck):
         "context activation state (stack discipline, caches, failed activations) is C12's subject; every scenario here starts from an empty stack",
     ]
     ck.trusted += ["harness/c11.py reference evaluator (own equation parser, own BFS, plain pint conversions with no context enabled)"]
+    import time
+    phases, t_ph = {}, time.time()
     built = ck.coq_build(["Properties/C11.vo", "Model/ContextRun.vo", "Gen/DefaultReg.vo"])
+    phases["coq build + Print Assumptions"] = round(time.time() - t_ph, 1)
+    t_ph = time.time()
 
     fails = []                      # (key, desc, replay)
     groups = []                     # (world, q_oldest, [(coq term, desc)])
@@ -1044,15 +1045,27 @@ def run(ck):
                 frames.append({"refs": [rnd_ref(rng, w, i) for i in idxs], "kw": rnd_kw(rng, w, rng.choice([0, 0.5, 1]))})
             if rng.random() < 0.02:
                 frames[rng.randrange(depth)]["refs"] = [("name", "unknown_ctx")]
-            # source / target: endpoints of rules of the active contexts (mostly), or any node
+            # source / target: mostly a node of the active rule graph and a node reachable from it
             active = [w.resolve(r) for fr in frames for r in fr["refs"] if r[1] != "unknown_ctx"]
-            ends = []
+            edges = set()
             for i in active:
-                for r in w.specs[i]["raw"]["rels"]:
-                    ends += [r["src"], r["dst"]]
-            bytext = {t: e for t, e in w.nodes}
-            pick = lambda: bytext[rng.choice(ends)] if ends and rng.random() < 0.85 else rng.choice(w.nodes)[1]
-            a, b = pick(), pick()
+                edges |= set(w.declared(i)[1])
+            exps_of = lambda key: {n[2:-1]: int(e) for n, e in key}
+            starts = sorted({e[0] for e in edges}, key=sorted)
+            if starts and rng.random() < 0.85:
+                ka = rng.choice(starts)
+                reach, todo = {ka}, [ka]
+                while todo:
+                    v = todo.pop()
+                    for (p_, q_) in edges:
+                        if p_ == v and q_ not in reach:
+                            reach.add(q_)
+                            todo.append(q_)
+                far = sorted(reach - {ka}, key=sorted)
+                a = exps_of(ka)
+                b = exps_of(rng.choice(far)) if far and rng.random() < 0.8 else rng.choice(w.nodes)[1]
+            else:
+                a, b = rng.choice(w.nodes)[1], rng.choice(w.nodes)[1]
             if rng.random() < 0.1:
                 b = a
             x = rng.choice([F(1), F(2), F(3, 2), F(10), F(-4), F(1, 7), F(0)] if rng.random() < 0.1 else [F(1), F(2), F(3, 2), F(10), F(-4), F(1, 7)])
@@ -1069,14 +1082,31 @@ def run(ck):
     from pint.util import find_shortest_path
     bfs_cases = []
     for _ in range(6000 if thorough else 600):
-        n = rng.randint(2, 8)
-        p = rng.choice([0.15, 0.3, 0.5])
         g = defaultdict(set)
-        for a in range(n):
-            for b in range(n):
-                if a != b and rng.random() < p:
+        if rng.random() < 0.5:
+            n = rng.randint(2, 8)
+            p = rng.choice([0.15, 0.3, 0.5])
+            for a in range(n):
+                for b in range(n):
+                    if a != b and rng.random() < p:
+                        g[a].add(b)
+            src, dst = rng.randrange(n), rng.randrange(n)
+        else:                      # layered: many shortest paths, longer detours, back edges
+            widths = [1] + [rng.randint(1, 3) for _ in range(rng.randint(1, 3))] + [1]
+            layers, n = [], 0
+            for wd_ in widths:
+                layers.append(list(range(n, n + wd_)))
+                n += wd_
+            for la, lb in zip(layers[:-1], layers[1:]):
+                for a in la:
+                    for b in lb:
+                        if rng.random() < 0.75:
+                            g[a].add(b)
+            for _ in range(rng.randint(0, 4)):
+                a, b = rng.randrange(n), rng.randrange(n)
+                if a != b:
                     g[a].add(b)
-        src, dst = rng.randrange(n), rng.randrange(n)
+            src, dst = (0, n - 1) if rng.random() < 0.8 else (rng.randrange(n), rng.randrange(n))
         snapshot = {k: set(v) for k, v in g.items()}
         path = find_shortest_path(g, src, dst)
         allp = all_shortest_paths({(a, b) for a in snapshot for b in snapshot[a]}, src, dst)
@@ -1093,6 +1123,8 @@ def run(ck):
         stats["find_shortest_path graphs"] += 1
 
     # ---------------------------------------------------------------- differ inside Coq (one file per world, in parallel)
+    phases["implementation + oracles"] = round(time.time() - t_ph, 1)
+    t_ph = time.time()
     total_cases, total_bad, first_bad = 0, 0, None
 
     def diff_world(wc):
@@ -1100,12 +1132,16 @@ def run(ck):
         if not cs:
             return w, cs, []
         hdr = HEADER + w.coq_world() + f"Definition ok (c : c11case) : bool := c11_ok {coq_bool(q_oldest)} W c.\n"
-        return w, cs, ck.coq_mismatches(f"c11_{w.wid}", hdr, [c for c, _ in cs], "ok", shard=300)
+        t0 = time.time()
+        bad = ck.coq_mismatches(f"c11_{w.wid}", hdr, [c for c, _ in cs], "ok", shard=40 if w.text is None else 300)
+        if os.environ.get("C11_DEBUG"):
+            print(f"  world {w.wid}: {len(cs)} cases {time.time() - t0:.1f}s")
+        return w, cs, bad
 
     if built:
         empty = World("bfs", "bfs", "ua = [da]\n")
         jobs = groups + [(empty, bfs_cases)]
-        with cf.ThreadPoolExecutor(max_workers=max(2, NCPU // 2)) as ex:
+        with cf.ThreadPoolExecutor(max_workers=max(2, NCPU)) as ex:
             results = list(ex.map(diff_world, jobs))
         for w, cs, bad in results:
             total_cases += len(cs)
@@ -1122,6 +1158,8 @@ def run(ck):
     for w, _ in groups:
         w.close()
 
+    phases["model side (coqc)"] = round(time.time() - t_ph, 1)
+    ck.extra["phase_seconds"] = phases
     for k, v in sorted(stats.items()):
         ck.count(k, v)
     ck.extra["model_vs_impl_cases"] = total_cases
@@ -1129,11 +1167,14 @@ def run(ck):
     ck.extra["several_shortest_chains"] = {"scenarios": stats["several shortest chains"],
                                            "with_different_values": stats["several shortest chains with different values"],
                                            "integer_graphs": stats["bfs: several shortest paths"]}
-    seen = set()
+    seen, per_class = set(), defaultdict(int)
     for key, desc, rp in fails:
-        if key not in seen:
+        cls = key.split(":")[0]
+        if key not in seen and per_class[cls] < 6:        # one replay per distinct key, at most 6 per oracle
             seen.add(key)
+            per_class[cls] += 1
             ck.violation(key, desc, rp)
+    ck.extra["oracle_failures"] = len(fails)
     if first_bad is not None:
         w, (term, rp), n = first_bad
         ck.broken.append(f"correspondence ContextRun.c11_ok: {total_bad} disagreements, first in world {w.wid}: "
